@@ -252,6 +252,7 @@ type rawAns struct {
 
 var rawCache = map[string]rawAns{}
 var rawScratch string
+var rawSpent time.Duration
 
 func rawTruth(c contentSpec) rawAns {
 	if fwplugin.ContractVersion != "1.0" {
@@ -261,6 +262,8 @@ func rawTruth(c contentSpec) rawAns {
 	if r, ok := rawCache[string(b)]; ok {
 		return r
 	}
+	t0 := time.Now()
+	defer func() { rawSpent += time.Since(t0) }()
 	p := filepath.Join(rawScratch, "raw-probe")
 	if err := os.WriteFile(p, b, 0o700); err != nil {
 		panic(err)
@@ -980,6 +983,7 @@ func runC20(a *Args) error {
 	}
 	// the concurrency family (one shared manager, a child process); ids follow the ordinary cases
 	runConcParent(a, w, len(specs), emit)
+	w.Set("raw_truth", fmt.Sprintf("%d distinct file contents run directly, %.1fs", len(rawCache), rawSpent.Seconds()))
 	return w.Close()
 }
 
